@@ -36,9 +36,10 @@ TRACK = ["skfem.mesh.mesh_tri_1:MeshTri1.element_finder", "skfem.mesh.mesh_tet_1
          "skfem.assembly.basis.cell_basis:CellBasis.point_source"]
 REQUIRED_MONITORS = ["inside-point-is-located", "located-cell-contains-point", "outside-point-raises",
                      "probes-equal-local-expansion", "probes-at-quadrature-equal-interpolate", "point-source-row",
-                     "interpolator-shapes", "repeated-permuted-points"]
+                     "interpolator-shapes", "repeated-permuted-points", "one-point-at-a-time"]
 REQUIRED_REACH = ["point:vertex", "point:facet", "point:interior", "point:hole", "point:outside-box",
-                  "finder-fallback-search-all", "vector-valued-element", "tensor-valued-element"]
+                  "finder-fallback-search-all", "vector-valued-element", "tensor-valued-element", "coefficient-dtypes",
+                  "single-point-sequence", "query-array-updated-in-place"]
 
 F = Fraction
 
@@ -402,7 +403,58 @@ def probes_case(ctx, k, kind):
         ctx.check("interpolator-shapes", v4.shape == (2, 2), mech=f"interpolator-trailing-axes:{base}", shape=v4.shape, **tag)
         ctx.close("probes-equal-local-expansion", v4.ravel(), ref[:4], rtol=1e-9, scale=scale,
                   mech=f"interpolator-trailing:{base}", **tag)
-    # a second evaluation at *different* points of the same count (fresh basis object: history is C15's subject)
+    # coefficient vectors of other dtypes denote the same discrete function
+    for how, yy in (("int", np.round(4 * y).astype(np.int64)), ("bool", y > 0), ("float32", y.astype(np.float32))):
+        refy = own_evaluate(basis, rec, cells, x, yy.astype(np.float64))
+        vy = basis.interpolator(yy)(x)
+        ctx.close("probes-equal-local-expansion", np.asarray(vy, dtype=np.float64), refy,
+                  rtol=1e-9 if how != "float32" else 1e-6, scale=float(np.abs(refy).max()) + float(np.abs(yy).max()) * 1e-3,
+                  mech=f"interpolator-coefficient-dtype:{how}", coefficients=how, **tag)
+    ctx.reached("coefficient-dtypes")
+    # one point at a time on the same basis object, among them points on the edges of one cell (reference
+    # coordinates exactly 0 or 1 on axis-parallel cells): "any number, order and repetition of query points"
+    RV = GEO.ref_vertices(kind)                                   # (dref, nverts)
+    c0 = int(cells0[0])
+    seq = []
+    nv = RV.shape[1]
+    for _ in range(4):
+        a, b = (int(i) for i in rng.choice(nv, size=2, replace=False)) if nv > 1 else (0, 0)
+        for sp_ in (0.25, 0.75, 0.0):
+            seq.append(((1 - sp_) * RV[:, a] + sp_ * RV[:, b], c0))
+    for j in range(min(3, npts)):
+        seq.append((Xr[:, j], int(cells0[j])))
+    order = rng.permutation(len(seq))
+    finder = mesh.element_finder()
+    fint = basis.interpolator(y)
+    worst_tag = None
+    for jj in order:
+        Xj, cj = seq[jj]
+        xj = GEO.map_points(kind, P, T, Xj[:, None], np.array([cj]))[:, 0, :]   # (d, 1)
+        try:
+            cl = np.asarray(finder(*xj))
+        except ValueError:
+            ctx.drop("single-point-not-located")   # judged by the locate-* families
+            continue
+        refj = own_evaluate(basis, rec, cl, xj, y)
+        gj = np.asarray(basis.probes(xj) @ y).reshape(tshape + (1,))
+        vj = fint(xj)
+        ctx.close("one-point-at-a-time", gj, refj, rtol=1e-9, scale=scale, mech=f"probes-single-point-sequence:{base}",
+                  ref_point=Xj, cell=int(cl[0]), **tag)
+        ctx.close("one-point-at-a-time", vj, refj, rtol=1e-9, scale=scale, mech=f"interpolator-single-point-sequence:{base}",
+                  ref_point=Xj, cell=int(cl[0]), **tag)
+    ctx.reached("single-point-sequence")
+    # the caller's query array updated in place between two calls
+    xa = np.array(x[:, :min(3, x.shape[1])])
+    basis.probes(xa)
+    xa[:] = np.stack([GEO.map_points(kind, P, T, GEO.random_ref_points(rng, kind, 1), np.array([cells0[j % npts]]))[:, 0, 0]
+                      for j in range(xa.shape[1])], axis=1)
+    try:
+        ca = np.asarray(finder(*xa))
+        ctx.close("probes-equal-local-expansion", np.asarray(basis.probes(xa) @ y).reshape(tshape + (xa.shape[1],)),
+                  own_evaluate(basis, rec, ca, xa, y), rtol=1e-9, scale=scale, mech="probes-query-array-updated-in-place", **tag)
+        ctx.reached("query-array-updated-in-place")
+    except ValueError:
+        ctx.drop("updated-point-not-located")
     # point source = matching row
     ps = basis.point_source(x[:, 0])
     if not tshape:
